@@ -300,6 +300,10 @@ def check_writer(ctx, case, ignore_known=False):
         fail("the strict decoder rejects the file: %s" % e)
     except on_short():
         fail("the file ends inside a record")
+    ncirc = sum(1 for c in dec["cells"] for e in c["elements"] if e.get("k") == "circle")
+    if ncirc:
+        ctx.stats.count("writer_files_with_circle_records")
+        ctx.stats.count("writer_circle_records", ncirc)
     g_in = lib["precision"] / lib["unit"]
     want_unit = 1e-6 / lib["precision"]
     if abs(float(dec["unit"]) / want_unit - 1) > 1e-12:
